@@ -115,9 +115,6 @@ def oracle(case, reply):
         return None
     if "want_err" in case:
         if not reply.startswith("err "):
-            if all(k == "D28.MissingArgument" for k, _ in case["want_err"]):
-                return (f"D28 expression macro invoked with fewer arguments than parameters assembles (`{reply[:40]}`) because the missing "
-                        f"parameter {case['want_err'][0][1]!r} is never read: {case.get('src', '')[:160]!r}")
             return f"ill-formed program assembled (`{reply[:60]}`); expected one of {case['want_err']} for {case.get('src', '')[:160]!r}"
         if reply.endswith(" dirty"):
             return "output bytes were produced although assembly failed"
@@ -125,8 +122,6 @@ def oracle(case, reply):
         kind = EQUIV.get(parts[0], parts[0])
         names = parts[1].split(",") if len(parts) > 1 else []
         for k, n in case["want_err"]:
-            if k == "D28.MissingArgument" and kind in ("UndeclaredVariableMacro", "Asm.MacroArgumentCount", "MacroArgumentCount"):
-                return None          # a repaired assembler may name the missing parameter or the macro
             # which macro of a cycle is named when the nesting limit is hit is an accident of where the count started
             if EQUIV.get(k, k) == kind and (n is None or n in names or not names or kind.endswith("MacroRecursionLimit")):
                 return None
@@ -448,7 +443,7 @@ def gen_nested_frames(rng):
 
 def gen_missing_args(rng):
     """expression macros invoked with FEWER arguments than parameters, the missing parameter read (undeclared variable) or
-    never read (finding D28: etk assembles such a program), directly, nested, and with the surplus parameter first / last"""
+    never read (D28: etk used to assemble such a program; repaired by 841db2a), directly, nested, and with the surplus parameter first / last"""
     a, b = rng.sample(range(2, 60), 2)
     kind = rng.choice(["unused_last", "unused_first_used_second", "used", "nested_unused", "zero_of_two"])
     if kind == "unused_last":
